@@ -162,7 +162,12 @@ def gen_case(rng):
         # an iterable that is not an iterator (so it takes the inline fast path) and may fail part-way
         delays = [0] * (n + 1)
     cons_delay = rng.choice([0, 0, 2])
-    return {'kind': kind, 'ids': ids, 'fail': fail, 'delays': delays, 'cons_delay': cons_delay}
+    case = {'kind': kind, 'ids': ids, 'fail': fail, 'delays': delays, 'cons_delay': cons_delay}
+    if not kind.startswith('async') and rng.random() < 0.4:
+        # the rarely used `loop=` argument: the caller's own (idle) loop drives the source, and is used for a
+        # second round afterwards - it is the caller's to close, not the bridge's
+        case['own_loop'] = True
+    return case
 
 
 def run_case(case, seed, pct=0, choices=None):
@@ -250,14 +255,34 @@ def run_case(case, seed, pct=0, choices=None):
             S.spawn('L', body)
         else:
             def body():
+                own = BridgeLoop(S) if case.get('own_loop') else None
+                kw = {'loop': own} if own is not None else {}
                 try:
-                    for x in A.to_sync_iter(asrc()):
+                    for x in A.to_sync_iter(asrc(), **kw):
                         res['got'].append(x)
                         E.labels.append('g:%d' % ident(x))
                         pause(case['cons_delay'])
                     finish(None)
                 except Boom as e:
                     finish(e)
+                if own is not None:
+                    # second round on the same loop (monitor only: the label trace describes the first round)
+                    first_labels, E.labels = E.labels, []
+                    res['closed_after_1'] = own.is_closed()
+
+                    async def again():
+                        for e in ids:
+                            yield TABLE[e]
+                    res['got2'], res['end2'] = [], 'missing'
+                    try:
+                        for x in A.to_sync_iter(again(), loop=own):
+                            res['got2'].append(x)
+                        res['end2'] = None
+                    except BaseException as e:  # noqa
+                        res['end2'] = repr(e)
+                    E.labels = first_labels
+                    if not own.is_closed():
+                        own.close()
             S.spawn('C', body)
         S.run(wall_timeout=20)
     finally:
@@ -286,6 +311,13 @@ def judge(case, r):
     want_end = None if case['fail'] is None else 'same'
     if r['end'] != want_end:
         return 'terminal', f'iteration ended with {r["end"]!r}, expected {"the source\'s exception" if want_end else "normal end"}'
+    if case.get('own_loop'):
+        if r.get('closed_after_1'):
+            return 'loop-closed', "to_sync_iter(..., loop=L) closed the caller's loop L"
+        full = [TABLE[e] for e in case['ids']]
+        if r.get('end2') is not None or r.get('got2') != full:
+            return 'second-round', (f"a second to_sync_iter(..., loop=L) on the same loop gave {r.get('got2')!r} and ended "
+                                    f"with {r.get('end2')!r}; the source yields {full!r}")
     if r['workers_alive']:
         return 'thread-left', f'helper thread(s) {r["workers_alive"]} still running after iteration finished'
     if case['kind'] == 'async:gen':
